@@ -14,7 +14,7 @@ CHECKS = {
 
  "C07": ("fault_enumeration", "dry-run call counting + injection of an errno at every (call kind, ordinal) in parent and forked child, plus real failure causes; audits",
          "For each configuration every pipe/fcntl/fork call of the parent and every chdir/dup2/setuid/setgid/setpgid/exec call of the forked child is failed once (link-time interposition, fault plan inherited across fork); eight real causes are applied too. Err must carry the step's errno, nothing may have started, no child and no descriptor may remain; without a fault the program must really have started.",
-         "Quick samples 48 configurations, thorough enumerates all 1056; the errno per point is drawn from a list of 14.", "DESIGN.md 4 (C07), 2.3.5", "real"),
+         "Quick samples 48 configurations, thorough enumerates all 1056; the errno per point is drawn from a list of 17 (up to 4095).", "DESIGN.md 4 (C07), 2.3.5", "real"),
  "C15": ("exploration", "proptest-generated PATH shapes over a scratch tree; independent lookup model; self-reported /proc/self/exe",
          "PATH values with missing / empty / non-executable / directory / non-binary / runnable / empty-string / duplicate / over-long entries and names with slashes are resolved by an independent model; the helper that actually ran reports its own executable path.",
          "Harness sets its own PATH/cwd per case; runs as root.", "DESIGN.md 4 (C15)", "real"),
@@ -28,16 +28,16 @@ CHECKS = {
  "C01": ("exploration", "proptest-generated child scripts x schedules x pipe capacities on a simulated kernel (link-time interposed libc); wait-for-cycle, call-budget and CPU-spin oracles; real-process tier; libFuzzer stage in thorough",
          "The real Communicator code runs against a deterministic simulated kernel in which the generated case contains the child's I/O script, the interleaving at system-call granularity, pipe capacities/flavours and sizes; a hang becomes an assertion failure (wait-for cycle or call budget) that shrinks and replays.",
          "Trusts the simulated pipe/poll model (differential-tested against real kernel pipes at every run) and the call budget as the definition of 'finishes'.", "DESIGN.md 2.1, 3 (C01)", "simk"),
- "C02": ("exploration", "as C01 plus short-read/short-write plans; ground-truth byte record of the simulated child as oracle; real-process tier (helper reports hash of what it received); libFuzzer stage in thorough",
+ "C02": ("exploration", "as C01 plus short-read/short-write plans; ground-truth byte record of the simulated child as oracle; real-process tier (helper reports hash of what it received); same oracle on the extracted cfg(windows) threaded communicator over real pipes; libFuzzer stage in thorough",
          "Byte exactness in both directions, absence of unpiped streams, EOF placement and the text variant are compared with the simulator's record of what the scripted child really wrote and read, under generated short reads/writes.",
          "Same trusted base as C01.", "DESIGN.md 3 (C02)", "simk"),
- "C03": ("exploration", "proptest histories of size limits on the simulated kernel; per-read bound + concatenation = record; real-process tier; libFuzzer stage in thorough",
+ "C03": ("exploration", "proptest histories of size limits on the simulated kernel; per-read bound + concatenation = record + bounded-liveness of input delivery; real-process tier; same oracle on the extracted cfg(windows) threaded communicator; libFuzzer stage in thorough",
          "Histories of reads with changing size limits while the scripted child writes to both streams; every piece is bounded, pieces concatenate to the record, empty only at EOF (checked against simulator state at the instant of return).",
          "Same trusted base as C01.", "DESIGN.md 3 (C03)", "simk"),
- "C04": ("exploration", "proptest histories of time limits on a virtual clock (incl. EINTR injection); exact virtual-time bounds; real-process tier; libFuzzer stage in thorough",
+ "C04": ("exploration", "proptest histories of time limits on a virtual clock (incl. EINTR injection); exact virtual-time bounds; real-process tier; extracted cfg(windows) threaded communicator against never-ending writers; libFuzzer stage in thorough",
          "Time limits from 0 to 10 years against silent / trickling / flooding / stdin-closing children on a virtual clock: lateness is bounded in calls entered after the deadline, TimedOut only within 1 ms of the deadline, never without a limit, continuity across resumed reads.",
          "Same trusted base as C01; virtual clock advances by a per-call cost and by blocking polls.", "DESIGN.md 3 (C04)", "simk"),
- "C06": ("exploration", "proptest-generated argv/env/cwd/identity; byte-for-byte self-report of a real helper child",
+ "C06": ("exploration", "proptest-generated argv/env/cwd/identity; byte-for-byte self-report of a real helper child; extracted cfg(windows) environment-block builder against a reference model",
          "Real children (helper hard-linked into a scratch directory, mode chosen by a sidecar file so that argv and environment stay under test) report argv, environ, cwd, uids/gids, pgid and /proc/self/exe; compared with the request and a last-wins model; NUL injection must be refused before fork.",
          "Trusts the helper's self-report and /proc; runs as root so identity changes really happen.", "DESIGN.md 4 (C06)", "real"),
  "C09": ("exploration", "proptest call histories against a reference model on a simulated process table; real children for all exit codes / fatal signals; libFuzzer stage in thorough",
